@@ -40,7 +40,7 @@ DocShapes == << << <<Sh(FALSE, 0), Sh(TRUE, 1)>>, <<Sh(FALSE, 1), Sh(FALSE, 0)>>
 NDocs == Len(DocShapes)
 Offset(Q, d) == [p \in 1..Len(Q) |-> [f \in 1..Len(Q[p]) |->
                    [k |-> Q[p][f].k,
-                    v |-> [j \in 1..Len(Q[p][f].v) |-> IF Q[p][f].v[j] = NoText THEN NoText ELSE 1000 * d + Q[p][f].v[j]]]]]
+                    v |-> [j \in 1..Len(Q[p][f].v) |-> IF Q[p][f].v[j] = NoText THEN NoText ELSE 100000000 * d + Q[p][f].v[j]]]]]
 CDoc(d)  == Offset(DocOf(DocShapes[d]), d)
 Model(d) == Parse(Dump(CDoc(d)))
 
